@@ -1,7 +1,9 @@
 package checks
 
 import (
+	"errors"
 	"fmt"
+	"io"
 	"strings"
 	"unicode"
 	"unicode/utf8"
@@ -211,6 +213,57 @@ func c06Template(c *Ctx, sl c06slot, s string, local map[string]int64) {
 		local["template.printed-and-read-back"]++
 	}
 	local["template.ok"]++
+	// the same text from a reader that fails once, with an error that is not
+	// io.EOF, in the middle of the quoted value and delivers the rest
+	// afterwards: whatever the parser makes of that, the literal must not end
+	// where the reader hiccuped
+	if (q[0] == '\'' || q[0] == '"') && len(q) > 2 && len(text) < 4096 && mon.Hash64(text)%5 == 0 {
+		at := strings.Index(text, q)
+		for _, cut := range []int{at + 1, at + len(q)/2, at + len(q) - 1} {
+			var q2 *influxql.Query
+			var err2 error
+			if p, pv, st := mon.Try(func() {
+				q2, err2 = influxql.NewParser(&hiccupReader{s: text, at: cut}).ParseQuery()
+			}); p {
+				d := det(fmt.Sprint(pv))
+				d["stack"] = st
+				r.Violation("panic-in-parse", d)
+				return
+			}
+			r.Eval(1)
+			if err2 == nil && dumpOf(q2) != dumpOf(qy) {
+				r.Violation("structure-changed", det(fmt.Sprintf("read from a reader that reports a transient error after %d bytes (inside the quoted value), the text is accepted as %s", cut, trunc(q2.String(), 300))))
+				return
+			}
+			local["template.reader-error-inside-value"]++
+		}
+	}
+}
+
+// hiccupReader delivers s[:at], then fails once with a non-EOF error, then
+// delivers the rest.
+type hiccupReader struct {
+	s    string
+	at   int
+	pos  int
+	done bool
+}
+
+func (h *hiccupReader) Read(p []byte) (int, error) {
+	if h.pos >= len(h.s) {
+		return 0, io.EOF
+	}
+	end := len(h.s)
+	if !h.done {
+		if h.pos >= h.at {
+			h.done = true
+			return 0, errors.New("i/o timeout")
+		}
+		end = h.at
+	}
+	n := copy(p, h.s[h.pos:end])
+	h.pos += n
+	return n, nil
 }
 
 // unredactAll puts passwords back into a printed query (C15 is about their
@@ -304,6 +357,54 @@ func c06Multi(c *Ctx, parts [3]string, local map[string]int64) {
 		return
 	}
 	local["multi.ok"]++
+	c06Built(c, parts, local)
+	if parts[2] != "" {
+		c06Built(c, [3]string{parts[0], parts[1], ""}, local)
+	}
+}
+
+// c06Built: the same names in a statement built through the AST, with one
+// measurement node standing both as INTO target and as source (as a program
+// that copies a measurement onto itself builds it): printed twice, the text
+// is the same, reads back with these names, and the node is as it was.
+func c06Built(c *Ctx, parts [3]string, local map[string]int64) {
+	r := c.R
+	m := &influxql.Measurement{Database: parts[0], RetentionPolicy: parts[1], Name: parts[2]}
+	stmt := &influxql.SelectStatement{Fields: influxql.Fields{{Expr: &influxql.VarRef{Val: "v"}}}, Target: &influxql.Target{Measurement: m}, Sources: influxql.Sources{m}, IsRawQuery: true}
+	det := func(why string) map[string]interface{} {
+		return map[string]interface{}{"sub": "multi", "input": "hand-built SELECT v INTO <m> FROM <m>", "parts": []string{parts[0], parts[1], parts[2]}, "why": why}
+	}
+	var s1, s2, src string
+	if p, pv, stk := mon.Try(func() { s1 = stmt.String(); s2 = stmt.String(); src = stmt.Sources.String() }); p {
+		d := det(fmt.Sprint(pv))
+		d["stack"] = stk
+		r.Violation("panic-in-print", d)
+		return
+	}
+	r.Eval(1)
+	if s1 != s2 || !strings.HasSuffix(s1, " FROM "+src) {
+		r.Violation("multi-part-source-wrong", det(fmt.Sprintf("printed %q, then %q; the sources alone print %q", trunc(s1, 200), trunc(s2, 200), trunc(src, 200))))
+		return
+	}
+	if *m != (influxql.Measurement{Database: parts[0], RetentionPolicy: parts[1], Name: parts[2]}) {
+		r.Violation("multi-part-source-wrong", det(fmt.Sprintf("printing changed the measurement node to %#v", *m)))
+		return
+	}
+	back, err, pan, _, _ := parseQuery1(s1)
+	if pan || err != nil {
+		r.Violation("multi-part-source-rejected", det(fmt.Sprintf("printed as %q, which is rejected: %v", trunc(s1, 300), err)))
+		return
+	}
+	sel, ok := back.(*influxql.SelectStatement)
+	if !ok || len(sel.Sources) != 1 {
+		r.Violation("multi-part-source-wrong", det("printed text reads back as another kind of statement: "+trunc(s1, 300)))
+		return
+	}
+	if bm, ok := sel.Sources[0].(*influxql.Measurement); !ok || bm.Database != parts[0] || bm.RetentionPolicy != parts[1] || bm.Name != parts[2] || sel.Target == nil || sel.Target.Measurement.Database != parts[0] || sel.Target.Measurement.RetentionPolicy != parts[1] || sel.Target.Measurement.Name != parts[2] {
+		r.Violation("multi-part-source-wrong", det("printed as "+trunc(s1, 300)+", which reads back with other names"))
+		return
+	}
+	local["multi.built-with-shared-node"]++
 }
 
 var c06alphabet = []string{"'", `"`, `\`, "n", "\n", "\r", "\x00", " ", ".", "/", "*", "-", ";", "$", "a", "1", "_", "é", "\xff"}
